@@ -551,8 +551,7 @@ class NormFam(Family):
         return f"fire stash={attr_of(n, 'stash_type')}"
 
     def finding(self, c):
-        if len(c["other"]) > 2:
-            return "C05-N11"
+        # C05-N11 (scale / bias outranks x) is fixed in /repo (fd3c959): the rules refuse; witness in the corpus
         if c["kind"] == "rms" and c["opset"] < 23:
             return "C05-N12"
         return None
